@@ -1,6 +1,7 @@
 package main
 
 import (
+	"encoding/json"
 	"fmt"
 	"math/rand"
 	"strings"
@@ -127,6 +128,47 @@ func spellingsAgreeW(p string, o, base int, inputs [][]rune, st func(string), wr
 	return "", "", matched
 }
 
+// localFormAgrees compares an AST compiled under the option set o with its local
+// form (internal/gen/localform.go) compiled without options.
+func localFormAgrees(root *gen.Node, o int, inputs [][]rune, st func(string)) (detail, incon, src, lsrc string) {
+	env := envOf(o)
+	p1 := gen.Finish(root.Clone(), env, false, gen.PrintOpts{})
+	if p1 == nil {
+		return "", "not-printable", "", ""
+	}
+	p2 := gen.Finish(gen.LocalForm(root, env), gen.Env{}, false, gen.PrintOpts{})
+	if p2 == nil {
+		return "", "not-printable", p1.Src, ""
+	}
+	r1, e1 := mon.Compile(p1.Src, o, 0)
+	r2, e2 := mon.Compile(p2.Src, 0, 0)
+	if e1 != nil || e2 != nil {
+		if e1 != nil && e2 != nil {
+			return "", "pattern-rejected", p1.Src, p2.Src
+		}
+		return fmt.Sprintf("%q with options %q compiles: %v; its local form %q compiles: %v", p1.Src, lettersOf(o), e1 == nil, p2.Src, e2 == nil), "", p1.Src, p2.Src
+	}
+	r1.MatchTimeout, r2.MatchTimeout = c18Timeout, c18Timeout
+	st("local-form-group-map")
+	if g1, g2 := groupMapOf(r1), groupMapOf(r2); g1 != g2 {
+		return fmt.Sprintf("group maps differ: %q with options %q -> %s, its local form %q -> %s", p1.Src, lettersOf(o), g1, p2.Src, g2), "", p1.Src, p2.Src
+	}
+	for _, in := range inputs {
+		for start := 0; start <= len(in); start += 1 + len(in)/3 {
+			st("local-form-find")
+			m1, err1 := r1.FindRunesMatchStartingAt(in, start)
+			m2, err2 := r2.FindRunesMatchStartingAt(in, start)
+			if err1 != nil || err2 != nil {
+				return "", "engine-resource", p1.Src, p2.Src
+			}
+			if o1, o2 := mon.ObsAll(m1), mon.ObsAll(m2); o1 != o2 {
+				return fmt.Sprintf("on %q from %d: %q with options %q gives %s but its local form %q (every leaf with its own option wrapper, no scopes) gives %s", string(in), start, p1.Src, lettersOf(o), o1, p2.Src, o2), "", p1.Src, p2.Src
+			}
+		}
+	}
+	return "", "", p1.Src, p2.Src
+}
+
 // scopingAgrees checks (?O:A(?-O)B)C against (?O:A)BC.
 func scopingAgrees(a, b, c string, o, base int, inputs [][]rune, st func(string)) (detail, incon string) {
 	ls := lettersOf(o)
@@ -167,6 +209,18 @@ func replayC18(w core.Witness) string {
 		o = int(v)
 	}
 	in := [][]rune{witnessRunes(w)}
+	if w.Kind == "local-form" {
+		var ast gen.Node
+		if json.Unmarshal(w.AST, &ast) != nil {
+			return "witness has no AST"
+		}
+		var inputs [][]rune
+		for _, extra := range []string{"a\nb", "AB\nab", "a b#c\n", "A\n", "ab ab", " a", "abd", "abde"} {
+			inputs = append(inputs, []rune(extra))
+		}
+		d, _, _, _ := localFormAgrees(&ast, w.Options, inputs, func(string) {})
+		return d
+	}
 	if w.Kind == "scoping" {
 		a, _ := w.Args["A"].(string)
 		b, _ := w.Args["B"].(string)
@@ -195,7 +249,8 @@ func c18Profile(rng *rand.Rand) *gen.Profile {
 		Anchors: []string{"^", "$", `\A`, `\z`, `\Z`, `\b`},
 		Groups:  true, Named: rng.Intn(2) == 0, NonCap: true,
 		LookAhead: true, LookBehind: true, Atomic: true, Backrefs: rng.Intn(3) == 0,
-		InlineOpts: rng.Intn(3) == 0, OptLetters: "imsnx", Comments: true,
+		CondExpr: rng.Intn(2) == 0, CondRef: rng.Intn(4) == 0,
+		InlineOpts: rng.Intn(3) != 0, OptLetters: "imsnx", Comments: true,
 		Lazy: true, Nullable: rng.Intn(3) == 0,
 	}
 }
@@ -289,6 +344,93 @@ func runC18(r *core.Run) int {
 		l.NontrivialN(nontriv)
 		if nontriv > 0 {
 			l.Sample(map[string]any{"pattern": src, "base_options": baseOpts, "option_sets_with_a_match": nontriv})
+		}
+		// local-form law: the AST under an option set against the scope-free rewriting of it
+		if pc.pat != nil && pc.pat.AST != nil {
+			for k := 0; k < 4; k++ {
+				oset := 0
+				for _, lt := range c18Letters {
+					if rng.Intn(2) == 0 {
+						oset |= int(lt.opt)
+					}
+				}
+				if k == 0 {
+					oset |= int(regexp2.ExplicitCapture)
+				}
+				detail, incon, s1, s2 := localFormAgrees(pc.pat.AST, oset, inputs, st)
+				l.Eval(1)
+				if incon != "" {
+					l.Count("local_form_"+incon, 1)
+					continue
+				}
+				l.Count("local_form_compared", 1)
+				if detail != "" {
+					ast, _ := json.Marshal(pc.pat.AST)
+					l.Violate(core.Violation{Kind: "local-form-differs", Detail: detail, Witness: core.Witness{Kind: "local-form", Pattern: s1, AST: ast, Options: oset, Args: map[string]any{"local_form": s2, "option_set": oset}}})
+					return
+				}
+			}
+		}
+		// directed family for the local-form law: an option scope (n, i, x, ...) that holds a bare
+		// conditional and is closed by its group, followed by plain capturing groups - no (?...)
+		// construct anywhere else, so nothing re-synchronises the parser's one-shot state
+		{
+			letters := []rune("abAB1 ")
+			lit := func() *gen.Node { return gen.L(letters[rng.Intn(len(letters))]) }
+			var gid int
+			var plain func(d int) *gen.Node
+			plain = func(d int) *gen.Node {
+				c := gen.Cat()
+				for k := rng.Intn(3); k >= 0; k-- {
+					switch x := rng.Intn(7); {
+					case x == 0:
+						c.Kids = append(c.Kids, gen.Esc(string("dws"[rng.Intn(3)])))
+					case x == 1:
+						c.Kids = append(c.Kids, gen.Rep(lit(), rng.Intn(2), 1+rng.Intn(2)))
+					case x == 2 && d > 0:
+						gid++
+						c.Kids = append(c.Kids, &gen.Node{K: gen.KGroup, Capture: true, GID: gid, Kids: []*gen.Node{plain(d - 1)}})
+					case x == 3:
+						c.Kids = append(c.Kids, gen.Dot())
+					default:
+						c.Kids = append(c.Kids, lit())
+					}
+				}
+				return c
+			}
+			condAtom := []*gen.Node{gen.Dot(), gen.Esc("w"), gen.Esc("d"), gen.Cls(false, gen.CR('a'), gen.CR('b'))}[rng.Intn(4)]
+			cond := &gen.Node{K: gen.KCondExpr, Bare: true, Kids: []*gen.Node{gen.Look(true, false, condAtom), plain(1), plain(0)}}
+			on := []string{"n", "n", "in", "nx", "i", "s"}[rng.Intn(6)]
+			inner := gen.Cat(plain(1), cond, plain(1))
+			var scope *gen.Node
+			if rng.Intn(2) == 0 {
+				scope = &gen.Node{K: gen.KOptGroup, On: on, Kids: []*gen.Node{inner}}
+			} else {
+				// (A(?n)B): the switch reaches the closing parenthesis of the enclosing group
+				gid++
+				scope = &gen.Node{K: gen.KGroup, Capture: true, GID: gid, Kids: []*gen.Node{gen.Cat(plain(0), &gen.Node{K: gen.KOptSet, On: on}, inner)}}
+			}
+			gid++
+			after := &gen.Node{K: gen.KGroup, Capture: true, GID: gid, Kids: []*gen.Node{plain(0)}}
+			root := gen.Cat(plain(1), scope, plain(0), after, plain(1))
+			dInputs := append([][]rune(nil), inputs...)
+			if p := gen.Finish(root.Clone(), gen.Env{}, false, gen.PrintOpts{}); p != nil {
+				dInputs = append(dInputs, inputsFor(&patCase{src: p.Src, pat: p}, rng, 3, 12)...)
+			}
+			for _, oset := range []int{0, int(regexp2.IgnoreCase), int(regexp2.IgnorePatternWhitespace), int(regexp2.Singleline | regexp2.Multiline)} {
+				detail, incon, s1, s2 := localFormAgrees(root, oset, dInputs, st)
+				l.Eval(1)
+				if incon != "" {
+					l.Count("local_form_directed_"+incon, 1)
+					continue
+				}
+				l.Count("local_form_directed_compared", 1)
+				if detail != "" {
+					ast, _ := json.Marshal(root)
+					l.Violate(core.Violation{Kind: "local-form-differs", Detail: detail, Witness: core.Witness{Kind: "local-form", Pattern: s1, AST: ast, Options: oset, Args: map[string]any{"local_form": s2, "option_set": oset, "family": "scope-with-bare-conditional"}}})
+					return
+				}
+			}
 		}
 		// scoping law on three independent atoms
 		if pc.pat != nil && i%2 == 0 {
